@@ -81,7 +81,9 @@ type TestServer struct {
 // StartServer starts a real server.
 func StartServer(maxConn int) *TestServer {
 	Setup()
-	config.Server.MaxConnections = maxConn
+	if config.Server.MaxConnections != maxConn { // no write when unchanged: goroutines of an earlier server may still read it
+		config.Server.MaxConnections = maxConn
+	}
 	s := server.New()
 	l, err := net.Listen("tcp", "127.0.0.1:0")
 	if err != nil {
